@@ -34,7 +34,7 @@ TECHNIQUE = "property-based testing (Hypothesis): model-based + metamorphic orac
 
 
 def cases(tier):
-    return 1600 if tier == "quick" else 48000
+    return 1600 if tier == "quick" else 160000
 
 
 def cfg(hazards):
